@@ -242,6 +242,12 @@ func (b *broker) react(c *simConn, p *Packet, mode respMode) {
 // inject sends the next scripted inbound message on c.
 func (b *broker) inject(c *simConn) {
 	in := b.w.scn.Inbound[b.nextIn]
+	if in.Raw != nil {
+		b.w.ev(Event{K: "bk-inject", C: c.id, N: b.nextIn})
+		b.nextIn++
+		b.send(c, in.Raw)
+		return
+	}
 	m := &bmsg{id: in.ID, qos: in.QoS, topic: in.Topic, body: in.Body, retain: in.Retain, idx: b.nextIn}
 	b.nextIn++
 	if m.qos > 0 {
